@@ -59,6 +59,10 @@ if ok:
     assert not out.strip(), "/repo not clean"
     rc, out = sh("git -C /repo apply %s" % os.path.join(dst, "patch.diff"))
     assert rc == 0, out
+    # the evidence files describe the UNCHANGED tree: keep them, the runs below overwrite them
+    saved = os.path.join(V, "work", "evidence.saved")
+    shutil.rmtree(saved, ignore_errors=True)
+    shutil.copytree(os.path.join(V, "evidence"), saved)
     try:
         for p in [prop] + others:
             t = time.time()
@@ -78,6 +82,9 @@ if ok:
         sh("git -C /repo checkout -- .")
         sh("python3 %s/tools/gen_tables.py" % V)
         sh("find %s/replays -name 'C*.json' -delete" % V)
+        for f in os.listdir(saved):
+            shutil.copy(os.path.join(saved, f), os.path.join(V, "evidence", f))
+        shutil.rmtree(saved, ignore_errors=True)
 meta["checks"] = results
 meta["detected_by"] = [p for p, r in results.items() if r["exit"] != 0]
 json.dump(meta, open(os.path.join(dst, "meta.json"), "w"), indent=1)
